@@ -132,6 +132,56 @@ func (i *interpreter) isClass(r value, ascii func(tb *termTable, t *term) *term,
 	return host(i.conc(r).(int32))
 }
 
+// inTables: membership of a (possibly symbolic) rune in range tables. On the
+// ASCII half the answer is one term (the tables' ASCII members as ranges), so
+// a symbolic ASCII character is not enumerated; beyond ASCII the rune is
+// concretised (the representatives of D).
+func (i *interpreter) inTables(r value, tabs []value) value {
+	host := func(c rune) bool {
+		for _, t := range tabs {
+			if unicode.Is(hostTableOf(t), c) {
+				return true
+			}
+		}
+		return false
+	}
+	return i.isClass(r, func(tb *termTable, t *term) *term {
+		res := tb.ff
+		for lo := rune(0); lo < 0x80; lo++ {
+			if !host(lo) {
+				continue
+			}
+			hi := lo
+			for hi+1 < 0x80 && host(hi+1) {
+				hi++
+			}
+			res = tb.or(res, rng(tb, t, lo, hi))
+			lo = hi
+		}
+		return res
+	}, host)
+}
+
+// classByHost: a character predicate of package unicode on a (possibly
+// symbolic) rune: one term on the ASCII half, concretisation beyond.
+func (i *interpreter) classByHost(r value, host func(rune) bool) value {
+	return i.isClass(r, func(tb *termTable, t *term) *term {
+		res := tb.ff
+		for lo := rune(0); lo < 0x80; lo++ {
+			if !host(lo) {
+				continue
+			}
+			hi := lo
+			for hi+1 < 0x80 && host(hi+1) {
+				hi++
+			}
+			res = tb.or(res, rng(tb, t, lo, hi))
+			lo = hi
+		}
+		return res
+	}, host)
+}
+
 func rng(tb *termTable, t *term, lo, hi rune) *term {
 	return tb.and(tb.app(opULe, 0, tb.bv(uint64(lo), 32), t, nil), tb.app(opULe, 0, t, tb.bv(uint64(hi), 32), nil))
 }
@@ -261,36 +311,24 @@ func init() {
 			}, unicode.IsSpace)
 		},
 		"unicode.Is": func(fr *frame, a []value) value {
-			return unicode.Is(hostTableOf(a[0]), fr.i.conc(a[1]).(int32))
+			return fr.i.inTables(a[1], []value{a[0]})
 		},
 		"unicode.In": func(fr *frame, a []value) value {
-			r := fr.i.conc(a[0]).(int32)
-			for _, t := range a[1].([]value) {
-				if unicode.Is(hostTableOf(t), r) {
-					return true
-				}
-			}
-			return false
+			return fr.i.inTables(a[0], a[1].([]value))
 		},
 		"unicode.IsOneOf": func(fr *frame, a []value) value {
-			r := fr.i.conc(a[1]).(int32)
-			for _, t := range a[0].([]value) {
-				if unicode.Is(hostTableOf(t), r) {
-					return true
-				}
-			}
-			return false
+			return fr.i.inTables(a[1], a[0].([]value))
 		},
-		"unicode.IsUpper":   func(fr *frame, a []value) value { return unicode.IsUpper(fr.i.conc(a[0]).(int32)) },
-		"unicode.IsLower":   func(fr *frame, a []value) value { return unicode.IsLower(fr.i.conc(a[0]).(int32)) },
-		"unicode.IsTitle":   func(fr *frame, a []value) value { return unicode.IsTitle(fr.i.conc(a[0]).(int32)) },
-		"unicode.IsNumber":  func(fr *frame, a []value) value { return unicode.IsNumber(fr.i.conc(a[0]).(int32)) },
-		"unicode.IsPunct":   func(fr *frame, a []value) value { return unicode.IsPunct(fr.i.conc(a[0]).(int32)) },
-		"unicode.IsSymbol":  func(fr *frame, a []value) value { return unicode.IsSymbol(fr.i.conc(a[0]).(int32)) },
-		"unicode.IsMark":    func(fr *frame, a []value) value { return unicode.IsMark(fr.i.conc(a[0]).(int32)) },
-		"unicode.IsControl": func(fr *frame, a []value) value { return unicode.IsControl(fr.i.conc(a[0]).(int32)) },
-		"unicode.IsGraphic": func(fr *frame, a []value) value { return unicode.IsGraphic(fr.i.conc(a[0]).(int32)) },
-		"unicode.IsPrint":   func(fr *frame, a []value) value { return unicode.IsPrint(fr.i.conc(a[0]).(int32)) },
+		"unicode.IsUpper": func(fr *frame, a []value) value { return fr.i.classByHost(a[0], unicode.IsUpper) },
+		"unicode.IsLower": func(fr *frame, a []value) value { return fr.i.classByHost(a[0], unicode.IsLower) },
+		"unicode.IsTitle": func(fr *frame, a []value) value { return fr.i.classByHost(a[0], unicode.IsTitle) },
+		"unicode.IsNumber": func(fr *frame, a []value) value { return fr.i.classByHost(a[0], unicode.IsNumber) },
+		"unicode.IsPunct": func(fr *frame, a []value) value { return fr.i.classByHost(a[0], unicode.IsPunct) },
+		"unicode.IsSymbol": func(fr *frame, a []value) value { return fr.i.classByHost(a[0], unicode.IsSymbol) },
+		"unicode.IsMark": func(fr *frame, a []value) value { return fr.i.classByHost(a[0], unicode.IsMark) },
+		"unicode.IsControl": func(fr *frame, a []value) value { return fr.i.classByHost(a[0], unicode.IsControl) },
+		"unicode.IsGraphic": func(fr *frame, a []value) value { return fr.i.classByHost(a[0], unicode.IsGraphic) },
+		"unicode.IsPrint": func(fr *frame, a []value) value { return fr.i.classByHost(a[0], unicode.IsPrint) },
 		"unicode.ToUpper":   func(fr *frame, a []value) value { return unicode.ToUpper(fr.i.conc(a[0]).(int32)) },
 		"unicode.ToLower":   func(fr *frame, a []value) value { return unicode.ToLower(fr.i.conc(a[0]).(int32)) },
 		"unicode.ToTitle":   func(fr *frame, a []value) value { return unicode.ToTitle(fr.i.conc(a[0]).(int32)) },
